@@ -1705,12 +1705,32 @@ impl SymbolTable {
 
         let prj = prj.map(resource_table::canonical_str_id);
 
-        let drop_list: Vec<_> = self
+        let mut drop_list: Vec<_> = self
             .symbol_table
             .iter()
             .filter(|x| is_drop_symbol(x.1, file_path, prj))
             .map(|x| *x.0)
             .collect();
+
+        // A generic instance names its template by id. When the template's file
+        // is dropped (it is re-analysed and gets a new id), instances requested
+        // from other files would keep pointing at a symbol that no longer
+        // exists; they are re-created on demand against the new template.
+        loop {
+            let more: Vec<_> = self
+                .symbol_table
+                .iter()
+                .filter(|(id, symbol)| {
+                    !drop_list.contains(id)
+                        && matches!(&symbol.kind, SymbolKind::GenericInstance(x) if drop_list.contains(&x.base))
+                })
+                .map(|x| *x.0)
+                .collect();
+            if more.is_empty() {
+                break;
+            }
+            drop_list.extend(more);
+        }
 
         // Read while the symbols are still in the table.
         let dropped: Vec<_> = drop_list
